@@ -267,6 +267,17 @@ var spinners = []string{
 	`var s = 0; while(true){ for (var i = 0; i < 1000; i++) { s += i; } }`,
 }
 
+// scripts that end by themselves
+var finishers = []string{
+	`return _.bindings;`,
+	`throw "ordinary failure";`,
+	`return undefinedFunction(1);`,
+	`var x = null; return x.field;`,
+	`_.out(function(){}); return {};`,
+	`return 3;`,
+	`return null;`,
+}
+
 func runTimeouts(cfg Config) {
 	enc := json.NewEncoder(out)
 	g := gen.New(cfg.Seed)
@@ -287,6 +298,11 @@ func runTimeouts(cfg Config) {
 		if g.P(1, 3) {
 			cancelAt = g.Intn(40)
 		}
+		if g.P(1, 8) {
+			// a deadline far away and a cancellation long before it (0 = cancelled before the call)
+			deadline = 4000
+			cancelAt = []int{0, 0, 3, 15, 40}[g.Intn(5)]
+		}
 		base := runtime.NumGoroutine()
 		var wg sync.WaitGroup
 		var mu sync.Mutex
@@ -297,7 +313,9 @@ func runTimeouts(cfg Config) {
 				defer wg.Done()
 				ctx, cancel := context.WithTimeout(context.Background(), time.Duration(deadline)*time.Millisecond)
 				defer cancel()
-				if cancelAt >= 0 {
+				if cancelAt == 0 {
+					cancel()
+				} else if cancelAt > 0 {
 					go func() {
 						time.Sleep(time.Duration(cancelAt) * time.Millisecond)
 						cancel()
@@ -334,6 +352,26 @@ func runTimeouts(cfg Config) {
 			time.Sleep(10 * time.Millisecond)
 		}
 		probe := map[string]interface{}{"stopsWithError": allInterrupted, "prompt": prompt, "noGoroutineLeak": !leaked}
+		// a script that ends by itself (with a result or with an ordinary error) under a context that
+		// stays alive: nothing started for the execution is left behind when the call has returned
+		fin := finishers[g.Intn(len(finishers))]
+		func() {
+			base := runtime.NumGoroutine()
+			ctx, cancel := context.WithCancel(context.Background())
+			defer cancel()
+			for k := 0; k < 8; k++ {
+				interp.Exec(ctx, match.Bindings{"n": 1.0}, nil, fin, nil)
+			}
+			left := true
+			for w := 0; w < 40; w++ {
+				if runtime.NumGoroutine() <= base {
+					left = false
+					break
+				}
+				time.Sleep(10 * time.Millisecond)
+			}
+			probe["nothingLeftUnderLiveContext"] = !left
+		}()
 		// the step reports the timeout routed like any other action error
 		if i%4 == 0 {
 			spec := &core.Spec{Nodes: map[string]*core.Node{
@@ -351,7 +389,7 @@ func runTimeouts(cfg Config) {
 				probe["timeoutRoutedAsActionError"] = routed
 			}
 		}
-		enc.Encode(probeLine(i, map[string]interface{}{"script": src, "deadlineMs": deadline, "concurrency": conc, "cancelAtMs": cancelAt}, probe,
+		enc.Encode(probeLine(i, map[string]interface{}{"script": src, "deadlineMs": deadline, "concurrency": conc, "cancelAtMs": cancelAt, "finisher": fin}, probe,
 			[]string{fmt.Sprintf("deadline%d", deadline), fmt.Sprintf("conc%d", conc)}))
 	}
 }
